@@ -15,6 +15,7 @@ import expgen
 import exprender
 import expmodel
 import c02acc
+import zoo
 
 PROP = "C02"
 RULE = ("Hypothesis draws EXPRESS schemas (keyword-like and case-colliding identifiers, chains/diamonds/multiple supertypes, "
@@ -274,8 +275,9 @@ def main(tier, seed):
     findings = common.Findings()
     root = common.scratch("c02")
     cfg = {"p_kw": 25, "p_redecl": 45, "p_derived": 30, "p_inverse": 35, "max_ent": 12 if tier == "quick" else 30, "max_typ": 10,
-           "p_array_optional": 30}
-    schemas = farm.draw_schemas(common.sub_seed(seed, PROP, "schemas"), n, cfg)
+           "p_array_optional": 30,
+           "type_weights": {"simple": 20, "alias": 20, "enum": 16, "enum_alias": 10, "agg": 14, "select": 20}}
+    schemas = [zoo.ZOO] + farm.draw_schemas(common.sub_seed(seed, PROP, "schemas"), n, cfg)
     for sd in schemas:
         for x in sd.get("tags", {}).get("excluded", []):
             ev.exclude(x)
